@@ -244,6 +244,13 @@ fn scen(_spec: RunSpec) -> ScenFut {
                 if want_m.values().sum::<u32>() > 0 {
                     any_nonempty = true;
                 }
+                // one statement in four is preceded by a query that selects no chunk at all (a window in the future):
+                // the node's `metrics` table is then bound to an empty relation when the statement is planned
+                if sim::w(4) == 3 {
+                    let fut = now + 500 * HOUR;
+                    let _ = qn.query(&format!("SELECT count(*) AS c FROM metrics WHERE timestamp >= {} AND timestamp <= {}", if ts_type_int { format!("{fut}") } else { "TIMESTAMP '2031-01-01T00:00:00'".to_string() }, if ts_type_int { format!("{}", fut + 1) } else { "TIMESTAMP '2031-01-01T00:00:01'".to_string() })).await;
+                    sim::probe("statement-planned-on-an-empty-binding");
+                }
                 for temp in ["cold", "warm"] {
                     if sim::wall_ns() != now && sql.contains("now()") {
                         continue;
@@ -260,6 +267,16 @@ fn scen(_spec: RunSpec) -> ScenFut {
                         Ok(g) => {
                             let got_m = result_multiset(&g);
                             if got_m != want_m {
+                                // diagnosis for the trace: what the node extracted and what the catalog holds
+                                let tr = qn.engine.extract_time_range(sql).await;
+                                let chunks = meta.list_chunks().await.unwrap_or_default();
+                                sim::log(format!("DIAG extracted time range: {:?}; catalog chunks: {:?}", tr.map(|t| (t.start, t.end)), chunks.iter().map(|c| (c.min_timestamp, c.max_timestamp, c.row_count)).collect::<Vec<_>>()));
+                                if std::env::var("VERIF_DIAG_PLAN").is_ok() {
+                                    match qn.engine.execute(&format!("EXPLAIN {sql}")).await {
+                                        Ok(b) => sim::log(format!("DIAG plan: {}", arrow::util::pretty::pretty_format_batches(&b).map(|t| t.to_string()).unwrap_or_default())),
+                                        Err(e) => sim::log(format!("DIAG plan failed: {e}")),
+                                    }
+                                }
                                 let cause = classify(sql, features);
                                 sim::violation(
                                     format!("C04/answer-differs/{cause}"),
@@ -296,6 +313,9 @@ fn scen(_spec: RunSpec) -> ScenFut {
 
 /// Structural cause tag of a failing query (from the query text, not from the trace).
 fn classify(sql: &str, features: &[&'static str]) -> &'static str {
+    if features.contains(&"repeated-subexpression") {
+        return "repeated-subexpression";
+    }
     if sql.contains("value_i64 <=") || sql.contains("value_i64 >=") {
         return "value-predicate-inclusive-bound";
     }
